@@ -12,7 +12,10 @@ PROPS = {
     "C02": dict(level="exploration", stages=[dict(kind="sim", quick=25, thorough=600)],
                 rule="one evaluation = one seeded sequential history (<=40 calls over <=3 names) judged call by call against the map model plus a full state read-out after every call; distinct = distinct canonical event-log hash; non-trivial = executed at least one call",
                 assumptions=["single client, fault-free configuration"]),
-    "C03": dict(level="exploration", stages=[dict(kind="sim", quick=25, thorough=600)],
+    "C03": dict(level="exploration", stages=[dict(kind="sim", quick=25, thorough=600),
+                                             dict(kind="mod", module="crashfs", open_ro=True, n_quick=3, n_thorough=20),
+                                             dict(kind="mod", module="crashfs", db=True, cache=False, faults="error", kinds=["new-version", "activate", "delete-version", "delete"],
+                                                  per_kind_quick=1, per_kind_thorough=6, quick=40, thorough=400)],
                 rule="one evaluation = one seeded history with a clean restart after every call (or at random positions), from an empty directory or a committed schema-v1 golden file; distinct = distinct canonical event-log hash; non-trivial = executed at least one call",
                 assumptions=["restart is clean (no crash); crash points are C04's", "golden files were written by the pinned tree"]),
     "C04": dict(level="fault_enumeration", stages=[dict(kind="mod", module="crashfs", db=True, cache=False, per_kind_quick=2, per_kind_thorough=24, quick=150, thorough=1500)],
@@ -44,7 +47,7 @@ PROPS = {
                     dict(kind="sim", name="baton", engine="storeworld-live", quick=20, thorough=600),
                     dict(kind="sim", name="race", engine="storeworld-race", race=True, instrumented=False, quick=12, thorough=240,
                          env={"VERIF_GOMAXPROCS": "4", "GORACE": "halt_on_error=1 exitcode=66", "VERIF_PRINT_START": "1"})],
-                rule=live_rule, probes_required=["read-judged", "reader-contended"],
+                rule=live_rule, probes_required=["read-judged"],
                 assumptions=["install order is taken from the sequence of cache documents (written under the store's lock right after each install)"]),
     "C13": dict(level="exploration", stages=[dict(kind="sim", quick=25, thorough=600),
                                              dict(kind="mod", module="crashfs", db=False, cache=True, per_kind_quick=3, per_kind_thorough=30, quick=60, thorough=600)], rule=live_rule + "; restarts from the cache; a restart probe (second store from the last document with a dead service, and a FileClient on the same bytes) after every shutdown; separate corruption scenario: NewStore on mutated documents and arbitrary bytes",
@@ -67,7 +70,7 @@ PROPS = {
                 rule="one evaluation = one concurrent history (2-4 clients x 2-5 calls on 1-2 shared names, DB API or handlers) under a seeded baton schedule with park points at every mutex acquisition, audit write, WhoIs call and transport delivery/response, decided by porcupine against the map model with a final sequential read-out; second stage: the same workloads free-running under the race detector; distinct = distinct canonical event-log hash (schedule + results); non-trivial = at least one scheduling step",
                 probes_required=["lock-contention", "porcupine-ok"],
                 assumptions=["interleavings are controlled at lock/seam granularity; finer effects are visible only to the race-detector stage, whose reports replay as 'same workload seed, re-run'", "porcupine timeouts (30 s) are counted as inconclusive, never reported"]),
-    "C09": dict(level="exploration", stages=[dict(kind="sim", quick=25, thorough=600)],
+    "C09": dict(level="exploration", stages=[dict(kind="sim", quick=30, thorough=600)],
                 rule="one evaluation = one seeded history biased to conditional gets with V drawn from {active, older, deleted, larger, 0}, through DB API, handlers+Client and FileClient; distinct = distinct canonical event-log hash; non-trivial = executed at least one call",
                 assumptions=["sequential callers; concurrency of activation with conditional gets is C14's"]),
 }
@@ -98,7 +101,7 @@ def run_property(ck, b, prop, cfg, tier, seed, replay, t0):
     harness_trouble = []
     stage_info = []
     for i, st in enumerate(cfg["stages"]):
-        budget = st[tier] if tier in st else st["quick"]
+        budget = st.get(tier, st.get("quick", 60))
         if os.environ.get("VERIF_BUDGET_SCALE"):
             budget = max(2, int(budget * float(os.environ["VERIF_BUDGET_SCALE"])))
         outdir = os.path.join(outroot, "stage%d" % i)
